@@ -658,6 +658,35 @@ func c17R7(c *Ctx, rule string) {
 	if n == 0 {
 		c.Bad(rule, "vote:callers", "-", "callers of (*verifyFuture).vote", "none")
 	}
+	// the waiting set changes hands in ONE critical section: read and replaced by
+	// a fresh map under the same Lock. A second section that clears the set
+	// later wipes registrations that arrived in between – those verify futures
+	// never get this follower's vote and never resolve.
+	if na := c.Fn(rule, "(*followerReplication).notifyAll"); na != nil {
+		nf := c.P.LookupField("followerReplication", "notify")
+		locks := 0
+		engine.EachInstr(na, func(in ssa.Instruction) {
+			if isLockOp("(*sync.Mutex).Lock")(in) {
+				locks++
+			}
+		})
+		r := c.Run(&engine.Automaton{Fn: na, Tracks: []engine.Track{
+			engine.Event("locked", isLockOp("(*sync.Mutex).Lock"), "unlocked"),
+			engine.Event("unlocked", isLockOp("(*sync.Mutex).Unlock")),
+			engine.Event("replaced", func(in ssa.Instruction) bool {
+				if nf == nil {
+					return false
+				}
+				v, ok := c.P.StoredValue(in, nf)
+				return ok && strings.HasPrefix(c.P.D(v), "make(map[*verifyFuture]struct{}")
+			}),
+		}})
+		for _, s := range c.P.CallsIn(na, engine.Is("(*verifyFuture).vote")) {
+			c.RequireAt(r, rule, "notifyAll:waiting-set-changes-hands-in-one-critical-section", s.Instr, "before any vote is cast the waiting set was read and replaced by a fresh map under a single Lock/Unlock pair; notifyAll never re-locks to clear the set afterwards", func(v engine.View) bool {
+				return locks == 1 && v.Seen("replaced") && v.Seen("unlocked")
+			})
+		}
+	}
 	// the blocking send in vote goes to the future's notifyCh, which is verifyCh
 	if vf := c.Fn(rule, "(*verifyFuture).vote"); vf != nil {
 		sends := 0
